@@ -164,6 +164,24 @@ pub fn sorted() -> Function {
         )))
 }
 
+fn sort_key_cmp(a: &Value, b: &Value) -> std::cmp::Ordering {
+    fn number(v: &Value) -> Value {
+        match v {
+            Value::Real(_) | Value::Integer(_) => *v,
+            other => Value::Integer(i64::try_from(*other).unwrap_or(0)),
+        }
+    }
+    fn is_nan(v: &Value) -> bool {
+        matches!(v, Value::Real(r) if r.is_nan())
+    }
+    match (is_nan(a), is_nan(b)) {
+        (false, false) => number(a)
+            .partial_cmp(&number(b))
+            .unwrap_or(std::cmp::Ordering::Equal),
+        (a_nan, b_nan) => a_nan.cmp(&b_nan),
+    }
+}
+
 /// Keeps the object behind `value`, if any, alive until the guard is dropped
 fn guard_value(value: Value) -> Option<ObjectGcGuard> {
     match value {
@@ -206,7 +224,7 @@ pub fn native_minmax<T, const LESS: bool>(
                     }
                     drop(_max_key_guard);
                     let k = t.nth_key(i);
-                    let v = *t.get(&k).unwrap();
+                    let v = t.get(&k).copied().unwrap_or(Value::Nil);
                     let mut result = vm.init_table()?;
                     let t = result.0.as_mut().as_table_mut().unwrap();
                     t.insert(vm.init_string("key")?, k)?;
@@ -247,9 +265,9 @@ pub fn native_sorted<T>(
                         key_guards.extend(guard_value(key));
                         result.push((key, k, v));
                     }
-                    result.sort_by(|(a, _, _), (b, _, _)| {
-                        a.partial_cmp(b).unwrap_or(std::cmp::Ordering::Equal)
-                    });
+                    // sort_by needs a total order: keys count as numbers like in the comparison
+                    // cards (nil as 0, strings and tables as their length), NaN keys go last
+                    result.sort_by(|(a, _, _), (b, _, _)| sort_key_cmp(a, b));
 
                     drop(key_guards);
                     let mut out = vm.init_table()?;
